@@ -189,7 +189,15 @@ impl<'a> ProgGen<'a> {
                     Some(l) => format!("({a}, break {l})"),
                     None => format!("({a}, error(null))"),
                 },
-                4 => format!("({a}, halt_error)"),
+                4 => {
+                    // stream events followed by a raise (for fromstream / truncate_stream)
+                    let ev = *self.rng.pick(&["[[0],1]", "[[0]]", "[[\"a\"],1]", "[[0,0],1]", "[[0,0]]", "[[],3]"]);
+                    match self.rng.below(3) {
+                        0 => format!("({ev}, error(\"x\"))"),
+                        1 => format!("({ev}, [[0]], error)"),
+                        _ => format!("([[0,0],1], {ev}, error(null))"),
+                    }
+                }
                 _ => "(error(\"only\"))".into(),
             };
         }
@@ -472,12 +480,16 @@ impl<'a> ProgGen<'a> {
                 }
                 let n = self.num();
                 let g = self.bounded_gen();
-                let inner = match self.rng.below(6) {
+                let inner = match self.rng.below(10) {
                     0 => format!("skip({n}; {g})"),
                     1 => format!("limit({n}; {g})"),
                     2 => format!("first({g})"),
                     3 => format!("nth({n}; {g})"),
                     4 => g,
+                    5 => format!("fromstream({g})"),
+                    6 => format!("{} | truncate_stream({g})", *self.rng.pick(&["0", "1", "2"])),
+                    7 => format!("({g} | select(. != null))"),
+                    8 => format!("[{g}][]"),
                     _ => format!("until(true; {g})"),
                 };
                 let outer = *self.rng.pick(&[
@@ -556,15 +568,57 @@ impl<'a> ProgGen<'a> {
             33 => format!("\"\\({n})\\({st})\\({m} | tojson)\""),
             34 => format!("{st} | test({st2})"),
             35 => format!("{st} | [match({re}; {fl}) | .captures[]? | .name, .string, .offset]"),
-            36 => format!("{st} | ascii"),
+            36 => {
+                let a = if self.rng.chance(1, 4) { "null".to_string() } else { self.num() };
+                let b = if self.rng.chance(1, 3) { "null".to_string() } else { self.num() };
+                let f = *self.rng.pick(&["indices", "index", "rindex", "getpath", "."]);
+                match f {
+                    "getpath" => format!("{st} | getpath([{{\"start\":{a},\"end\":{b}}}])"),
+                    "." => format!("{st} | .[{{\"start\":{a},\"end\":{b}}}]?"),
+                    _ => format!("{st} | {f}({{\"start\":{a},\"end\":{b}}})"),
+                }
+            }
             37 => format!("{st} | [.[{n}:{m}] | explode[]] | implode"),
             38 => format!("{st} | sub(\"(?<n>.)\"; \"\\(.n)\\(.n)\"; \"g\")"),
             _ => format!("({st} | {}) | {}", self.expr(6), (*self.rng.pick(&["length", "explode", "ascii_downcase", "tojson", "@base64", "utf8bytelength", "tonumber?", "ltrimstr(\"a\")"]))),
         }
     }
 
+
+    /// `del` with several sibling paths mixing slices and indices over small nested arrays:
+    /// deleting through one sibling changes what a later sibling's index means.
+    fn multi_del(&mut self) -> String {
+        let (arr, len) = *self.rng.pick(&[
+            ("[[1,2],[3,4],[5,6]]", 3i64), ("[1,2,3,4,5]", 5), ("[[1],[2],[3],[4]]", 4), ("[[[1]],[[2]]]", 2), ("\"abcdef\"", 6),
+            ("[{\"a\":[1,2]},{\"a\":[3]}]", 2), ("[[1,2,3],[4,5,6],[7,8,9],[0]]", 4), ("null", 0), ("{\"a\":[1,2,3]}", 1),
+        ]);
+        let k = |g: &mut Self| -> String {
+            match g.rng.below(10) {
+                0 => g.num(),
+                1 => format!("{}", len - 1),
+                2 => format!("{}", len - 2),
+                3 => format!("{len}"),
+                4 => "-1".into(),
+                _ => format!("{}", g.rng.below(4)),
+            }
+        };
+        let (a, b, c, d2, e2) = (k(self), k(self), k(self), k(self), k(self));
+        match self.rng.below(8) {
+            0 | 1 => format!("{arr} | del(.[{a}:{b}][{c}], .[{d2}][{e2}])"),
+            2 => format!("{arr} | del(.[{a}:{b}], .[{c}])"),
+            3 => format!("{arr} | del(.[{c}], .[{a}:{b}])"),
+            4 => format!("{arr} | del(.[{a}:{b}][{c}:{d2}], .[{e2}])"),
+            5 => format!("{arr} | del(.[{a}][{b}], .[{c}:{d2}][{e2}], .[{a}])"),
+            6 => format!("{arr} | delpaths([[{{\"start\":{a},\"end\":{b}}}, {c}], [{d2}, {e2}]])"),
+            _ => format!("{arr} | del(.[][{a}:{b}], .[{c}][{d2}])"),
+        }
+    }
+
     /// Paths, assignment, destructuring and control flow.
     fn paths_family(&mut self) -> String {
+        if self.rng.chance(1, 6) {
+            return self.multi_del();
+        }
         let pl = (*self.rng.pick(PATH_LITS)).to_string();
         let pl2 = (*self.rng.pick(PATH_LITS)).to_string();
         let lit = (*self.rng.pick(LITERALS)).to_string();
@@ -592,7 +646,7 @@ impl<'a> ProgGen<'a> {
             14 => format!("{lit} | [path(getpath({pl}))]"),
             15 => format!("{lit} | [path(empty)], [path(error)?]"),
             16 => format!("{lit} | (.[{n}:] |= {e})"),
-            17 => format!("{lit} | del(.[{n}:{}])", self.num()),
+            17 => self.multi_del(),
             18 => format!("{lit} | . as [$a, {{b: $c}}] | [$a, $c]"),
             19 => format!("{lit} | . as {{a: [$x, $y]}} | [$x, $y]"),
             20 => format!("{lit} | . as [$a] ?// {{a: $a}} ?// $a | [$a]"),
